@@ -240,6 +240,73 @@ func recvFieldAddr(a *Val) (int, bool) {
 	return 0, false
 }
 
+// nestedFieldAddr: a is the address of field inner of the nested part held in field outer of the root receiver
+// (p.Sub.f with Sub a struct value, or p.Sub.f through the pointer p.Sub held before the call).
+func nestedFieldAddr(a *Val) (outer, inner int, ok bool) {
+	if a == nil || a.Op != "field" || len(a.Args) == 0 {
+		return 0, 0, false
+	}
+	base := a.Args[0]
+	if base.Op == "init" && len(base.Args) == 1 {
+		base = base.Args[0] // the pointer the field held on entry
+	}
+	if o, ok := recvFieldAddr(base); ok {
+		return o, a.ID, true
+	}
+	return 0, 0, false
+}
+
+// nestedField: v is the value of p.Sub.f on entry.
+func nestedField(v *Val) (outer, inner int, ok bool) {
+	v = stripCT(v)
+	if v == nil || v.Op != "init" || len(v.Args) != 1 {
+		return 0, 0, false
+	}
+	return nestedFieldAddr(v.Args[0])
+}
+
+// collapseNested replaces a run of fields that were read into (written from) the fields of the nested part held in
+// receiver field X – its fields handled inline instead of through the part's own Decode (Encode) – by the single atom
+// obj(T), provided the run is, field for field, the layout the part's own method has. nestedOf(f) gives (X, inner
+// field index) for such a field; layoutOf(X) the nested type's name and its own layout.
+func collapseNested(fs []*FieldLayout, nestedOf func(f *FieldLayout) (int, int, bool), layoutOf func(outer int) (string, string, []*FieldLayout)) []*FieldLayout {
+	var out []*FieldLayout
+	for i := 0; i < len(fs); {
+		o, _, ok := nestedOf(fs[i])
+		if !ok {
+			out = append(out, fs[i])
+			i++
+			continue
+		}
+		j := i
+		for j < len(fs) {
+			if o2, _, ok2 := nestedOf(fs[j]); !ok2 || o2 != o {
+				break
+			}
+			j++
+		}
+		tname, fname, own := layoutOf(o)
+		match := own != nil && len(own) == j-i
+		if match {
+			for k := range own {
+				_, inner, _ := nestedOf(fs[i+k])
+				g := *fs[i+k]
+				g.Name = own[k].Name
+				if g.WireCanon() != own[k].WireCanon() || inner != own[k].GoField || len(allValueOps(fs[i+k])) > 0 {
+					match = false
+				}
+			}
+		}
+		if match {
+			out = append(out, &FieldLayout{Kind: "obj", Name: fname, Obj: tname, GoField: o, Pos: fs[i].Pos, Ev: fs[i].Ev})
+		} else {
+			out = append(out, fs[i:j]...)
+		}
+		i = j
+	}
+	return out
+}
+
 // elemOf: v is an element *S[i] of slice S; returns S.
 func elemOf(v *Val) *Val {
 	v = stripCT(v)
@@ -286,6 +353,7 @@ type layoutCtx struct {
 	path *Path
 	// subject naming
 	elemOf *Val // when inside a REP body: the list whose elements are subjects
+	nested map[string][2]int // provisional names "X.#i" of fields of a nested part handled inline -> (X, i)
 }
 
 func (c *layoutCtx) fieldName(idx int) string {
@@ -309,6 +377,15 @@ func (c *layoutCtx) subject(v *Val) (name string, idx int, ok bool) {
 	}
 	if c.ct == nil && v != nil && v.Op == "param" {
 		return v.Name, v.ID, true
+	}
+	if o, in, ok := nestedField(v); ok && c.elemOf == nil && c.ct != nil {
+		// a field of a nested part written inline: named X.#i until the run is recognised as the part's own layout
+		if c.nested == nil {
+			c.nested = map[string][2]int{}
+		}
+		name := fmt.Sprintf("%s.#%d", c.fieldName(o), in)
+		c.nested[name] = [2]int{o, in}
+		return name, o, true
 	}
 	return "", -1, false
 }
@@ -527,6 +604,16 @@ func (c *layoutCtx) elemLayoutEnc(rep *Event, list *Val) *FieldLayout {
 		if first == nil {
 			first, canon = fs[0], fs[0].Canon()
 		} else if fs[0].Canon() != canon {
+			// the iteration paths may be the alternative spellings of one field (cut / pad-left / pad-right of a fixed
+			// text decided inside the loop body rather than inside a callee): judge them together, as the arms of one ALT
+			alt := &Event{Kind: EvAlt, Pos: rep.Pos, Fn: rep.Fn, Site: rep.Site}
+			for _, a := range rep.Iter {
+				alt.Iter = append(alt.Iter, &Arm{Conds: a.Conds, Events: a.Events})
+			}
+			if joint := sub.extractEnc([]*Event{alt}); len(joint) == 1 && joint[0].Kind != "irregular" {
+				joint[0].Name = ""
+				return joint[0]
+			}
 			return &FieldLayout{Kind: "irregular", Note: "list element layout differs between iteration paths", Pos: rootPos(rep)}
 		}
 	}
@@ -904,8 +991,21 @@ func valuePath(v *Val, id int, allowTrim bool, loops map[int]*Event) (ops []stri
 		case v.Op == "choice":
 			// alternatives computed after the same reads: every one of them must be lossless, and they must agree
 			var firstTrim string
+			forks, _ := v.Aux.([]*choiceFork)
 			for i, alt := range v.Args {
-				o2, t2, p2, b2 := valuePath(alt, id, allowTrim, loops)
+				altLoops := loops
+				if i < len(forks) && forks[i] != nil {
+					// interpret the alternative with the loops and conditions of its own fork
+					altLoops = map[int]*Event{}
+					for k, l := range loops {
+						altLoops[k] = l
+					}
+					for _, l := range forks[i].Loops {
+						altLoops[l.LoopID] = l
+					}
+					altLoops[forkCondsKey] = &Event{Iter: []*Arm{{Conds: forks[i].Conds}}}
+				}
+				o2, t2, p2, b2 := valuePath(alt, id, allowTrim, altLoops)
 				ops = append(ops, o2...)
 				if i == 0 {
 					firstTrim, pad, padIsByte = t2, p2, b2
@@ -1041,6 +1141,26 @@ func (c *layoutCtx) extractDec(evs []*Event, sink func(wireIDs []int, loop int) 
 					i++
 					continue
 				}
+				// a counted run of numbers taken in one read and split by hand: k*count bytes whose value is bulkints
+				if nx.Kind == EvReadBytes && !nx.Failed {
+					if name, idx, v, okS := sink([]int{nx.ID}, 0); okS {
+						if b := stripCT(v); b.Op == "bulkints" && len(b.Args) == 2 && stripCT(b.Args[0]).Op == "wire" && stripCT(b.Args[0]).ID == nx.ID && affEq(b.Args[1], wv) {
+							if st, isSl := b.Type.Underlying().(*types.Slice); isSl {
+								if k, okK := fixedSize(st.Elem()); okK && affOf(nx.Size).Equal(affOf(wv).Scale(k)) {
+									ord := b.Name
+									if k == 1 {
+										ord = ""
+									}
+									f := &FieldLayout{Kind: "list", Prefix: typeStr(ev.IntType), POrder: ev.Order, Name: name, GoField: idx, Pos: rootPos(ev), Ev: []*Event{ev, nx}, WireIDs: []int{ev.ID, nx.ID},
+										Elem: &FieldLayout{Kind: "int", Type: typeStr(st.Elem()), Order: ord, GoField: -1}}
+									out = append(out, f)
+									i++
+									continue
+								}
+							}
+						}
+					}
+				}
 				if nx.Kind == EvRep && affEq(nx.Count, wv) && !nx.Partial {
 					f := &FieldLayout{Kind: "list", Prefix: typeStr(ev.IntType), POrder: ev.Order, GoField: -1, Pos: rootPos(ev), Ev: []*Event{ev, nx}, WireIDs: []int{ev.ID}}
 					name, idx, v, ok := sink(nil, nx.LoopID)
@@ -1113,7 +1233,14 @@ func (c *layoutCtx) extractDec(evs []*Event, sink func(wireIDs []int, loop int) 
 				}
 			}
 			// a number assembled by hand: ReadFull of N bytes, then ByteOrder.UintN over exactly those bytes
-			if n, okN := affOf(ev.Size).IsConst(); okN {
+			// (in a generic body: binary.Size(v) bytes, then binary.Decode into v)
+			n, okN := affOf(ev.Size).IsConst()
+			if !okN {
+				if l := stripCT(ev.Size); l.Op == "call" && l.Name == "encoding/binary.Size" {
+					n, okN = -1, true
+				}
+			}
+			if okN {
 				if name, idx, v, okS := sink([]int{ev.ID}, 0); okS {
 					if it, ord, okI := manualInt(v, ev.ID, n); okI {
 						f := &FieldLayout{Kind: "int", Type: typeStr(it), Order: ord, Name: name, GoField: idx, Pos: rootPos(ev), Ev: []*Event{ev}, WireIDs: []int{ev.ID}}
@@ -1286,7 +1413,254 @@ func scanTrim(sl *Val, loops map[int]*Event) (side string, pad *Val, ok bool) {
 			}
 		}
 	}
+	return scanTrimGen(W, lo, hi, loops)
+}
+
+// forkCondsKey: pseudo loop id under which valuePath hands down the conditions of the fork an alternative comes from.
+const forkCondsKey = -1
+
+// scanTrimGen covers the other spellings of the boundary scan: the index tested is the loop counter plus a constant
+// (`for i := len(b)-1; i >= 0; i--` tests b[i] where the two-index form tests b[end-1]), the loop may be left from
+// inside the iteration (`if b[i] != pad { return b[:i+1] }`) and the all-pad case may be written as an explicitly
+// empty slice. Writing B for the boundary (B = counter + k, B = len(W) before the first iteration on the right side,
+// B = 0 on the left side), what is verified is: the loop moves B by one per iteration; it continues exactly while B is
+// not at the far end and the byte at the boundary (W[B-1] on the right, W[B] on the left) equals the pad byte; the
+// result is W[:B] (W[B:]) with B the value at the exit, or an empty slice when the loop ran off the far end.
+func scanTrimGen(W, lo, hi *Val, loops map[int]*Event) (string, *Val, bool) {
+	if loops == nil {
+		return "", nil, false
+	}
+	var exitConds []Cond
+	if f := loops[forkCondsKey]; f != nil && len(f.Iter) == 1 {
+		exitConds = f.Iter[0].Conds
+	}
+	L := affOf(mkLen(W))
+	isZeroOrNil := func(v *Val) bool { return v == nil || isZero(v) }
+	// candidate loops: the one the moving bound mentions, or (explicitly empty result) every effect-free loop of the fork
+	type cand struct {
+		loop  *Event
+		right bool
+		bound *Affine // the result's moving bound as an affine term (nil: the explicitly empty slice)
+	}
+	var cands []cand
+	mention := func(v *Val) *Event {
+		var l *Event
+		if v != nil {
+			v.Walk(func(x *Val) bool {
+				if (x.Op == "loopvar" || x.Op == "loopout") && x.ID > 0 && loops[x.ID] != nil {
+					l = loops[x.ID]
+				}
+				return true
+			})
+		}
+		return l
+	}
+	empty := false
+	if lo != nil && hi != nil && affEq(lo, hi) {
+		empty = true
+	} else if hi != nil && isZero(hi) && isZeroOrNil(lo) {
+		empty = true
+	} else if lo != nil && hi == nil && affOf(lo).Equal(L) {
+		empty = true
+	}
+	switch {
+	case empty:
+		for id, l := range loops {
+			if id > 0 && !l.Partial {
+				cands = append(cands, cand{loop: l, right: true}, cand{loop: l, right: false})
+			}
+		}
+	case isZeroOrNil(lo) && hi != nil:
+		if l := mention(hi); l != nil {
+			cands = append(cands, cand{loop: l, right: true, bound: affOf(hi)})
+		}
+	case lo != nil && (hi == nil || affOf(hi).Equal(L)):
+		if l := mention(lo); l != nil {
+			cands = append(cands, cand{loop: l, right: false, bound: affOf(lo)})
+		}
+	}
+	for _, c := range cands {
+		if p, ok := verifyScanGen(c.loop, W, c.right, c.bound, exitConds); ok {
+			if c.right {
+				return "right", p, true
+			}
+			return "left", p, true
+		}
+	}
 	return "", nil, false
+}
+
+// notFarEnd: cond (with its Taken flag) says "E >= 1" for an affine E; returns E.
+func atLeastOne(c Cond) *Affine {
+	v := c.V
+	if v.Op != "binop" || len(v.Args) != 2 {
+		return nil
+	}
+	op := v.Name
+	if !c.Taken {
+		neg := map[string]string{"<": ">=", ">=": "<", ">": "<=", "<=": ">"}
+		n, ok := neg[op]
+		if !ok {
+			return nil
+		}
+		op = n
+	}
+	a, b := affOf(v.Args[0]), affOf(v.Args[1])
+	if a.Top || b.Top {
+		return nil
+	}
+	switch op {
+	case ">": // a - b >= 1
+		return a.Add(b, -1)
+	case ">=": // a - b + 1 >= 1
+		return a.Add(b, -1).Add(affConst(1), 1)
+	case "<":
+		return b.Add(a, -1)
+	case "<=":
+		return b.Add(a, -1).Add(affConst(1), 1)
+	}
+	return nil
+}
+
+// byteTest: cond says elem(W, idx) == pad (eq true) or != pad (eq false); returns idx and pad.
+func byteTest(c Cond, W *Val) (idx *Affine, pad *Val, eq bool, ok bool) {
+	v := c.V
+	if v.Op != "binop" || (v.Name != "==" && v.Name != "!=") || len(v.Args) != 2 {
+		return nil, nil, false, false
+	}
+	eq = (v.Name == "==") == c.Taken
+	asElem := func(x *Val) *Val {
+		x = stripCT(x)
+		if x.Op == "init" && len(x.Args) == 1 && x.Args[0].Op == "index" {
+			return &Val{Op: "elem", Args: x.Args[0].Args, Type: x.Type}
+		}
+		return x
+	}
+	el, p := asElem(v.Args[0]), asElem(v.Args[1])
+	if el.Op != "elem" {
+		el, p = p, el
+	}
+	if el.Op != "elem" || stripCT(el.Args[0]).Key() != W.Key() {
+		return nil, nil, false, false
+	}
+	if p.Contains(func(x *Val) bool { return x.Op == "wire" || x.Op == "loopvar" || x.Op == "loopout" || x.Op == "elem" || x.Op == "index" }) {
+		return nil, nil, false, false
+	}
+	return affOf(el.Args[1]), p, eq, true
+}
+
+func verifyScanGen(loop *Event, W *Val, right bool, bound *Affine, exitConds []Cond) (*Val, bool) {
+	if loop == nil || len(loop.Iter) != 1 {
+		return nil, false
+	}
+	arm := loop.Iter[0]
+	for _, e := range arm.Events {
+		if e.Kind != EvPanicSite {
+			return nil, false
+		}
+	}
+	if len(arm.Conds) != 2 {
+		return nil, false
+	}
+	// the counter: the one loop variable of this loop the first condition mentions
+	var lv *Val
+	arm.Conds[0].V.Walk(func(x *Val) bool {
+		if x.Op == "loopvar" && x.ID == loop.LoopID && len(x.Args) == 1 {
+			lv = x
+		}
+		return true
+	})
+	if lv == nil {
+		return nil, false
+	}
+	step, _ := lv.Aux.(int64)
+	L := affOf(mkLen(W))
+	// boundary B = lv + k with B(initial) = len(W) on the right, 0 on the left
+	var k int64
+	var isC bool
+	if right {
+		k, isC = L.Add(affOf(lv.Args[0]), -1).IsConst()
+		if step != -1 {
+			return nil, false
+		}
+	} else {
+		k, isC = affConst(0).Add(affOf(lv.Args[0]), -1).IsConst()
+		if step != 1 {
+			return nil, false
+		}
+	}
+	if !isC {
+		return nil, false
+	}
+	if nx := arm.Next[lv.Name]; nx == nil || !affOf(nx).Equal(affOf(lv).Add(affConst(step), 1)) {
+		return nil, false
+	}
+	B := affOf(lv).Add(affConst(k), 1)
+	// not at the far end: right B >= 1, left len(W) - B >= 1
+	far := B
+	bidx := B.Add(affConst(1), -1)
+	if !right {
+		far = L.Add(B, -1)
+		bidx = B
+	}
+	contTest := func(conds []Cond, at *Affine, atIdx *Affine, wantEq bool) (*Val, bool) {
+		if len(conds) != 2 {
+			return nil, false
+		}
+		e := atLeastOne(conds[0])
+		if e == nil || !e.Equal(at) {
+			return nil, false
+		}
+		idx, pad, eq, ok := byteTest(conds[1], W)
+		if !ok || eq != wantEq || !idx.Equal(atIdx) {
+			return nil, false
+		}
+		return pad, true
+	}
+	pad, ok := contTest(arm.Conds, far, bidx, true)
+	if !ok {
+		return nil, false
+	}
+	switch {
+	case bound == nil:
+		// explicitly empty result: the loop must have run off the far end – a complete (not early-left) loop whose only
+		// way to end is its own test; the boundary is then at the far end and W[:0] / W[len:] is what the scan yields
+		if loop.Partial {
+			return nil, false
+		}
+		return pad, true
+	default:
+		// bound = X + k with X the counter inside the iteration left early, or the counter's value after the loop
+		var x *Val
+		if len(bound.Term) != 1 {
+			return nil, false
+		}
+		for key, c := range bound.Term {
+			if c != 1 {
+				return nil, false
+			}
+			x = bound.Sym[key]
+		}
+		if x.ID != loop.LoopID || x.Name != lv.Name || bound.C != k {
+			return nil, false
+		}
+		switch x.Op {
+		case "loopout":
+			return pad, !loop.Partial
+		case "loopvar":
+			// left from inside an iteration: the conditions of that exit must be exactly "not at the far end" and
+			// "boundary byte differs from the same pad byte"
+			if !loop.Partial {
+				return nil, false
+			}
+			p2, ok := contTest(exitConds, far, bidx, false)
+			if !ok || p2.Key() != pad.Key() {
+				return nil, false
+			}
+			return pad, true
+		}
+	}
+	return nil, false
 }
 
 func verifyScan(loop *Event, W *Val, left bool) (*Val, bool) {
@@ -1462,6 +1836,16 @@ func manualCount(v *Val, id int, n int64) (types.Type, string, bool) {
 // manualInt: v is T(ByteOrder.UintN(wire#id)) with N bytes read and T an integer type of the same size.
 func manualInt(v *Val, id int, n int64) (types.Type, string, bool) {
 	v = stripCT(v)
+	for v.Op == "arraylit" && len(v.Args) == 1 { // the element appended to a list
+		v = stripCT(v.Args[0])
+	}
+	if v.Op == "decoded" && len(v.Args) == 1 && v.Args[0].Op == "wire" && v.Args[0].ID == id && v.Type != nil {
+		// binary.Decode over exactly the bytes read
+		if sz, ok := fixedSize(v.Type); ok && (sz == n || sz == -1) {
+			return v.Type, v.Name, true
+		}
+		return nil, "", false
+	}
 	var outer types.Type
 	for v.Op == "conv" && isIntegerType(v.Type) {
 		if outer == nil {
